@@ -579,6 +579,12 @@ class Spectrum(object):
             the psd on the fly, change the attribute :attr:`sides`.
 
         """
+        if (self.__psd is None or self.modified is True) and callable(self):
+            # bring the estimate up to date first, as the sides setter does: a
+            # pending computation resets the current sides, so it must not be
+            # triggered half-way through, after the layout has been looked at
+            self.psd
+
         if sides == self.sides:
             #nothing to be done is sides = :attr:`sides
             return self.__psd
